@@ -52,7 +52,7 @@ def table(name):
 
 
 TABLES = ["A", "B", "C", "D", "E", "F", "G", "H", "J", "N", "S"]
-MODES = ["plain", "overwrite", "append"]
+MODES = ["plain", "overwrite", "append", "append_overwrite"]
 
 
 def _norm(m):
@@ -139,14 +139,15 @@ def apply_op(path, model, op):
     new = _norm(table(tname))
     s = T.to_impl(new)
     before = sha(path)
-    kw = dict(overwrite=(mode == "overwrite"), append=(mode == "append"))
+    kw = dict(overwrite=(mode in ("overwrite", "append_overwrite")), append=(mode in ("append", "append_overwrite")))
     try:
         s.write(path, **kw)
         raised = None
     except Exception as e:
         raised = e
     after = sha(path)
-    if mode == "overwrite":
+    if mode in ("overwrite", "append_overwrite"):
+        # append=True together with overwrite=True is documented as "only the dataset is replaced"
         verdict, result = "accept", new
     elif mode == "plain":
         if model is None:
@@ -457,7 +458,7 @@ def build_batch_cases(quick):
 def main():
     chk = core.Check(
         PID, "model_checking",
-        "BFS over write/overwrite/append/read/batch-read histories (11 tables x 3 write modes + read + read_batch per state) on a real HDF5 "
+        "BFS over write/overwrite/append/read/batch-read histories (11 tables x 4 write modes {plain, overwrite, append, append+overwrite} + read + read_batch per state) on a real HDF5 "
         "file per state (applied at one re-used path per worker, so file-name-keyed state collides), "
         "deduplicated on the reference file model (asserted equal to the file content in every state); FITS write/overwrite/read "
         "histories of depth<=2; read_batch: every (start,stop,step) tuple and slice, every index array of length<=3 (repeats, any "
